@@ -112,7 +112,7 @@ func (x *Explorer) doCallVals(st *State, f *Frame, ins ssa.Instruction, c *ssa.C
 				if sc := x.funcValueContract(f, c.Value); sc != nil {
 					con = sc
 				} else {
-					x.havocCall(st, f, "dynamic call via "+valueName(c.Value), sig, res, isDefer)
+					x.havocCallObs(st, f, "dynamic call via "+valueName(c.Value), valueName(c.Value), site, sig, res, isDefer, allArgs)
 					return
 				}
 			}
@@ -168,6 +168,20 @@ func (x *Explorer) havocCall(st *State, f *Frame, key string, sig *types.Signatu
 	for i := range vals {
 		vals[i] = st.freshVal(sig.Results().At(i).Type(), "havoc_"+shortKey(key))
 	}
+	x.bind(st, f, res, resultVal(sig, vals), isDefer)
+}
+
+// havocCallObs is havocCall for calls through function values; observers can name them by the
+// variable or field the function value was read from.
+func (x *Explorer) havocCallObs(st *State, f *Frame, key, name, site string, sig *types.Signature, res ssa.Value, isDefer bool, args []Val) {
+	if !st.dry {
+		x.unmod[key]++
+	}
+	vals := make([]Val, sig.Results().Len())
+	for i := range vals {
+		vals[i] = x.freshResult(st, sig.Results().At(i).Type(), "havoc_"+shortKey(name))
+	}
+	x.observe(st, f, name, site, args, vals)
 	x.bind(st, f, res, resultVal(sig, vals), isDefer)
 }
 
